@@ -116,3 +116,24 @@ def VarintRead(inp, tab, ev):
     s = BytesIO(bytes(inp))
     ok, v = call(helper.read_varint, s)
     ev["res"] = res_of(ok, v, lambda n: {"val": le_trim(n), "used": s.tell()})
+
+
+# -------------------------------------------------------------- C11 bech32
+@act
+def SegwitEnc(inp, tab, ev):
+    from btc_hd_wallet import bech32
+    ok, v = call(bech32.encode, untext(inp["hrp"]), inp["ver"], list(inp["prog"]))
+    if ok and v is None:
+        ev["res"] = {"ok": False, "exc": "None"}
+    else:
+        ev["res"] = res_of(ok, v, T)
+
+
+@act
+def SegwitDec(inp, tab, ev):
+    from btc_hd_wallet import bech32
+    ok, v = call(bech32.decode, untext(inp["hrp"]), untext(inp["addr"]))
+    if ok and (v[0] is None or v[1] is None):
+        ev["res"] = {"ok": False, "exc": "None"}
+    else:
+        ev["res"] = res_of(ok, v, lambda t: {"ver": t[0], "prog": list(t[1])})
